@@ -193,7 +193,7 @@ def _mk():
         elif isinstance(cls, B):
             name = cls.name
         elif isinstance(cls, ClassV):
-            if isinstance(v, Obj):
+            if isinstance(v, (Obj, A.NTuple)):
                 c = v.cls
                 while isinstance(c, ClassV):
                     if c.node is cls.node:
@@ -327,8 +327,77 @@ def _mk():
     def b_reversed(it, a, k, n):
         return list(reversed(seq_of(it, a[0])))
 
+    def seqs_of(it, srcs):
+        """Concrete element lists of the arguments of zip()/map(); endless repeat() adapts."""
+        from .values import Repeat
+
+        fin = [None if isinstance(s, Repeat) else seq_of(it, s) for s in srcs]
+        if srcs and all(x is None for x in fin):
+            raise Unsupported("zip/map over endless iterables only")
+        n_ = min((len(x) for x in fin if x is not None), default=0)
+        return [[s.value] * n_ if x is None else x for s, x in zip(srcs, fin)]
+
     def b_zip(it, a, k, n):
-        return [tuple(x) for x in zip(*[seq_of(it, s) for s in a])]
+        return [tuple(x) for x in zip(*seqs_of(it, a))]
+
+    def b_staticmethod(kind):
+        def f(it, a, k, n):
+            import copy as _copy
+
+            fn = a[0]
+            if isinstance(fn, FuncV):
+                fn = _copy.copy(fn)
+                fn.kind = kind
+            return fn
+
+        return f
+
+    def b_issubclass(it, a, k, n):
+        c, bases = a[0], (list(a[1]) if isinstance(a[1], (tuple, list)) else [a[1]])
+        if not isinstance(c, ClassV):
+            return Unknown("issubclass of a non-repository class")
+        for b in bases:
+            x = c
+            seen = 0
+            while isinstance(x, ClassV) and seen < 20:
+                if isinstance(b, ClassV) and x.node is b.node:
+                    return True
+                if isinstance(b, ExtV) and it.is_subclass_of_ext(x, b.name.split(".")[-1]):
+                    return True
+                nxt = [y for y in it.class_bases(x) if isinstance(y, ClassV)]
+                x = nxt[0] if nxt else None
+                seen += 1
+        return False
+
+    def b_divmod(it, a, k, n):
+        x, y = a
+        return (it.binop(_ast.FloorDiv(), x, y, n), it.binop(_ast.Mod(), x, y, n))
+
+    def b_next(it, a, k, n):
+        from .values import Maybe, OneShot
+
+        src = a[0]
+        if not isinstance(src, OneShot):
+            raise Unsupported("next() on a non-generator")
+        rest = [] if src.consumed else list(src)[src.pos :]
+
+        def from_(i):
+            if i >= len(rest):
+                if len(a) > 1:
+                    return a[1]
+                it.log("raise", n, exc="StopIteration")
+                return BOTTOM
+            el = rest[i]
+            if isinstance(el, Maybe):
+                # membership decided at run time: this element if its filter holds, else the next one
+                return it.mkgamma(el.cond, el.value, it._guarded(el.cond, False, lambda: from_(i + 1)))
+            return el
+
+        if any(isinstance(el, Maybe) for el in rest):
+            src.consumed = True  # position afterwards is not representable: treat as exhausted
+        else:
+            src.pos += 1 if rest else 0
+        return from_(0)
 
     def b_enumerate(it, a, k, n):
         start = a[1] if len(a) > 1 else k.get("start", 0)
@@ -408,7 +477,7 @@ def _mk():
         from .values import OneShot
 
         f = a[0]
-        return OneShot([it.call_function(f, list(xs), {}, n) for xs in zip(*[seq_of(it, s) for s in a[1:]])])
+        return OneShot([it.call_function(f, list(xs), {}, n) for xs in zip(*seqs_of(it, a[1:]))])
 
     def b_iter(it, a, k, n):
         return a[0]
@@ -423,7 +492,11 @@ def _mk():
             if t is True:
                 out.append(x)
             elif t is not False:
-                raise Unsupported("filter() with an undecidable predicate")
+                from .values import Maybe
+
+                if isinstance(t, Gamma) or not A._is_cond(t):
+                    raise Unsupported("filter() with an undecidable predicate")
+                out.append(Maybe(t, x))  # kept only when the predicate holds at run time
         return OneShot(out)
 
     def b_slice(it, a, k, n):
@@ -439,7 +512,9 @@ def _mk():
         "setattr": b_setattr, "reversed": b_reversed, "zip": b_zip, "enumerate": b_enumerate,
         "sorted": b_sorted, "str": b_str, "repr": b_str, "type": b_type, "callable": b_callable,
         "print": b_print, "any": b_any, "all": b_all, "round": b_round, "id": b_id, "map": b_map,
-        "iter": b_iter, "slice": b_slice, "filter": b_filter,
+        "iter": b_iter, "slice": b_slice, "filter": b_filter, "divmod": b_divmod, "next": b_next,
+        "staticmethod": b_staticmethod("staticmethod"), "classmethod": b_staticmethod("classmethod"),
+        "property": b_staticmethod("property"), "issubclass": b_issubclass,
     }
     out = {k: B(k, v) for k, v in table.items()}
     for exc in ("ValueError", "TypeError", "RuntimeError", "AssertionError", "KeyError", "IndexError",
